@@ -211,7 +211,7 @@ func C11(c *core.Ctx) {
 					hist = append(hist, Action{Kind: "connect", Client: "Z", Opts: ConnectOpts{ClientID: "z", Clean: true, KeepAlive: 65535}}, sub("Z", 2, "#", 1))
 				}
 				spec := &HistSpec{Name: "first-packet", Cfg: Config{Authenticator: authn}, Comps: comps, CrashIsViolation: true}
-				if fp.expect != "accept" && fp.expect != "accept-or-code2" {
+				if (fp.expect != "accept" && fp.expect != "accept-or-code2") || authn == "mockFailure" {
 					spec.After = noEffect
 				}
 				r := spec.RunHistory(hist, false)
@@ -240,6 +240,46 @@ func C11(c *core.Ctx) {
 		}
 	}
 	c.Rep.Scenarios++
+	c11victim(c, comps)
+}
+
+// c11victim: a rejected CONNECT that names somebody else's client identifier
+// must not touch that client's session (selective authenticator).
+func c11victim(c *core.Ctx, comps map[string]bool) {
+	evil := func(clean bool, w *Will) Action {
+		return Action{Kind: "connect", Client: "E", Opts: ConnectOpts{ClientID: "o", Clean: clean, KeepAlive: 60, User: "evil", Pass: "x", Will: w}}
+	}
+	owner := Action{Kind: "connect", Client: "O", Opts: ConnectOpts{ClientID: "o", Clean: false, KeepAlive: 600}}
+	ops := []Action{
+		owner, sub("O", 1, "t", 1), {Kind: "disconnect", Client: "O"}, {Kind: "cut", Client: "O"},
+		evil(true, nil), evil(false, &Will{"w/evil", "planted", 1, false}), evil(false, nil),
+		pub("W", "t", 1, 9, "probe"),
+	}
+	comps2 := map[string]bool{}
+	for k := range comps {
+		comps2[k] = true
+	}
+	comps2["acks"], comps2["will"] = true, true
+	depth := 6
+	if c.Thorough() {
+		depth = 7
+	}
+	spec := &HistSpec{Name: "rejected-connect-with-foreign-id", Cfg: Config{Authenticator: SelectiveAuth}, Ops: ops, Depth: depth, Dedup: false, Comps: comps2, CrashIsViolation: true,
+		Prefix: []Action{{Kind: "connect", Client: "W", Opts: ConnectOpts{ClientID: "w", Clean: true, KeepAlive: 65535}}, sub("W", 2, "#", 1)},
+		Pre: func(hist []Action, a Action) bool {
+			// the rejected connection never becomes a live one: it may use the owner's id while the owner is online
+			if a.Client == "E" {
+				return true
+			}
+			var h2 []Action
+			for _, x := range hist {
+				if x.Client != "E" {
+					h2 = append(h2, x)
+				}
+			}
+			return precond(h2, a)
+		}}
+	spec.Search(c)
 }
 
 func fpClass(fp firstPacket) string {
